@@ -39,7 +39,8 @@ def check(ctx):
         pass
     n = 2500 if ctx.quick else 40000
     progs += gen.hostile_programs(rng, bw, n)
-    if ctx.replay_in:
+    stage = vlib.stage_replay(ctx)
+    if ctx.replay_in and not stage:
         progs = [bytes.fromhex(json.load(open(ctx.replay_in))["replay"]["code"])]
     stages = ["all", "all", "all", "disasm", "vm", "lift", "assign", "infer"]
     lines = []
@@ -48,7 +49,7 @@ def check(ctx):
                rng.choice([0, 31, 394, 100000]), rng.randrange(2))
         lines.append(gen.vm_line(c, cfg, poll_every=rng.choice([1, 100])) + " " + rng.choice(stages))
     outcome = collections.Counter()
-    profiles = [False] if ctx.quick else [False, True]
+    profiles = [] if stage else ([False] if ctx.quick else [False, True])
     for release in profiles:
         hb = vlib.harness_bin(ctx, release=release)
         if not hb:
@@ -71,5 +72,7 @@ def check(ctx):
         sites = {}
     ctx.coverage.update({"evaluations": len(lines) * len(profiles), "distinct_nontrivial": len(set(progs)),
                          "outcome_classes": dict(outcome), "panic_sites_by_status_and_kind": sites})
+    import p_passes_packing
+    p_passes_packing.suite(ctx, translate=False, codes={11}, cov_key="lifting_passes_packing", only=r"^(packing_no_panic|shift_of_non_subword|packed_encoding_panics|sub_word_pinned_panics|packed_encoding_pinned_panics|get_region_no_panic)")
     return vlib.finish(ctx, rule="hostile programs x random small/large limits x error mode x stage prefix; distinct = distinct byte "
                        "strings; every one is non-trivial (attacker-style input)", samples=[l[:160] for l in lines[:3]])
